@@ -12,7 +12,7 @@ MkZone(j) ==
       all == [i \in 1..Len(j.records) |->
                 LET r == j.records[i] IN
                 [owner |-> LowerName(ParseName(r.owner).name), type |-> r.type, ttl |-> r.ttl,
-                 rdata |-> CanonRdata(r.type, r.rdata), raw |-> r.rdata]]
+                 rdata |-> CanonRdataC(j.class, r.type, r.rdata), raw |-> r.rdata]]
       \* the zone store de-duplicates by RDATA equality (C19/C20): keep the first of each class
       keep == {i \in 1..Len(all) : ~\E k \in 1..(i - 1) :
                  all[k].owner = all[i].owner /\ all[k].type = all[i].type /\ all[k].rdata = all[i].rdata}
@@ -78,7 +78,11 @@ RespFails(r, e) ==
       rq == r.req IN
   \* a response that does not decode is C02's; if the octets after the header are not even the request's question
   \* although the header says QDCOUNT = 1, it is also a failure to echo the question (C03)
-  IF ~rs.ok THEN {"C02"} \cup (IF e.qecho /\ Len(r.resp) >= 12 /\ U16(r.resp, 4) = 1
+  \* (a catalog that zone validation would reject may hold RDATA that is malformed for its type; the server copies
+  \* what the zone API was given, and a response carrying such a record is not held against C02 - only C01 and the
+  \* outcome "some response" are decided there)
+  IF ~rs.ok /\ ~cfg.strict THEN {}
+  ELSE IF ~rs.ok THEN {"C02"} \cup (IF e.qecho /\ Len(r.resp) >= 12 /\ U16(r.resp, 4) = 1
                                    /\ ~(Len(r.resp) >= 12 + Len(QEcho(rq)) /\ SubSeq(r.resp, 13, 12 + Len(QEcho(rq))) = QEcho(rq))
                                 THEN {"C03"} ELSE {})
   ELSE
@@ -144,6 +148,27 @@ Fails(r) ==
        LET b == FailsAt(r, r.t1) IN IF b = {} THEN {} ELSE a
 
 \* C04: relation between the UDP response and the complete (TCP) response to the same request
+\* The least a UDP response to this request can be: everything up to the end of the authority section plus the
+\* mandatory glue (in-bailiwick addresses of a referral) plus the OPT record, each as encoded in the complete (TCP)
+\* response - the same writer produces the same octets for that prefix, and mandatory glue is written before
+\* optional addresses. If that fits, truncating is not "the complete answer does not fit".
+RECURSIVE SumSizes(_, _, _, _, _)
+SumSizes(msg, st, idx, glue, ar) ==      \* idx = positions in ar (1-based) still to look at, as a sequence
+  IF idx = <<>> THEN 0
+  ELSE LET i == Head(idx)
+           rr == ar[i]
+           mand == RR(rr.owner, rr.type, rr.ttlhi * 65536 + rr.ttllo, rr.rdata) \in Range(glue) IN
+       (IF mand THEN RRDelimit(msg, st[i]).end - st[i] ELSE 0) + SumSizes(msg, st, Tail(idx), glue, ar)
+NeedLen(r, e, t) ==
+  LET c0 == IF t.qd = 1 THEN 12 + DecodeName(r.tcp, 12).first + 4 ELSE 12
+      n == U16(r.tcp, 6) + U16(r.tcp, 8)
+      na == U16(r.tcp, 10)
+      st == Starts(r.tcp, c0, n + na, <<>>)
+      endAuth == IF n = 0 THEN c0 ELSE RRDelimit(r.tcp, st[n]).end
+      glue == IF e.hasAns /\ "glue" \in DOMAIN e.ans THEN e.ans.glue ELSE <<>>
+      arStarts == [i \in 1..na |-> st[n + i]] IN
+  endAuth + SumSizes(r.tcp, arStarts, [i \in 1..na |-> i], glue, t.ar) + (IF e.edns THEN 11 ELSE 0)
+
 UdpVsTcp(r) ==
   ("tcp" \in DOMAIN r /\ r.out = "resp") =>
     LET e == Respond(r.req, r.transport, cfg, r.t0)
@@ -159,6 +184,14 @@ UdpVsTcp(r) ==
        ELSE /\ SameBag(Plain(u.an), Plain(t.an)) /\ SameBag(Plain(u.ns), Plain(t.ns))
             /\ Range(Plain(NoPseudo(u.ar))) \subseteq Range(Plain(NoPseudo(t.ar)))
 
-AllFails(r) == Fails(r) \cup Chk("C04", UdpVsTcp(r))
+\* TC although the mandatory content fits: C04 ("when the complete answer does not fit") and, because what is
+\* mandatory in a referral is C05's statement (in-bailiwick glue must be there, other addresses may be dropped), C05
+NeedlessTc(r) ==
+  ("tcp" \in DOMAIN r /\ r.out = "resp" /\ ~cfg.rrl /\ ~MentionsTsig(r.req)) =>
+    LET e == Respond(r.req, r.transport, cfg, r.t0)
+        u == DecodeMessage(r.resp)  t == DecodeMessage(r.tcp) IN
+    (t.ok /\ u.ok /\ Bit(u.flags, 512) = 1) => NeedLen(r, e, t) > e.limit
+
+AllFails(r) == Fails(r) \cup Chk("C04", UdpVsTcp(r)) \cup (IF NeedlessTc(r) THEN {} ELSE {"C04", "C05"})
 
 ====
